@@ -66,6 +66,72 @@ func collect(prop string) []mutant {
 	return out
 }
 
+// benign patches: behaviour-preserving edits of /repo (refactorings, equivalent rewrites). Meta: {"properties": [...]}
+// (empty: every property), {"what": "..."}.
+type benignMeta struct {
+	Properties []string `json:"properties"`
+	What       string   `json:"what"`
+}
+
+func runBenign(prop *core.Property, seed int, baseSet map[string]bool, rep *core.SelfTestReport) {
+	files, _ := filepath.Glob(filepath.Join(core.VerifDir(), "benign", "*.diff"))
+	sort.Strings(files)
+	for _, f := range files {
+		var m benignMeta
+		if b, err := os.ReadFile(strings.TrimSuffix(f, ".diff") + ".json"); err == nil {
+			_ = json.Unmarshal(b, &m)
+		}
+		applies := len(m.Properties) == 0
+		for _, p := range m.Properties {
+			if p == prop.ID {
+				applies = true
+			}
+		}
+		if !applies {
+			continue
+		}
+		name := "benign/" + filepath.Base(f)
+		dir, err := os.MkdirTemp("", "verif-benign-")
+		if err != nil {
+			continue
+		}
+		func() {
+			defer os.RemoveAll(dir)
+			if out, err := exec.Command("rsync", "-a", "--exclude=.git", "--exclude=benchmarks", "/repo/", dir+"/").CombinedOutput(); err != nil {
+				rep.Names = append(rep.Names, fmt.Sprintf("%s: skipped (copy failed: %v %s)", name, err, out))
+				return
+			}
+			ap := exec.Command("patch", "-p1", "-s", "--no-backup-if-mismatch", "-i", f)
+			ap.Dir = dir
+			if out, err := ap.CombinedOutput(); err != nil {
+				rep.Names = append(rep.Names, fmt.Sprintf("%s: skipped (patch does not apply to the current tree: %s)", name, strings.TrimSpace(string(out))))
+				return
+			}
+			os.Setenv("VERIF_REPO", dir)
+			res := core.RunProperty(prop, "quick", seed, "")
+			os.Unsetenv("VERIF_REPO")
+			core.DropProgramsFor(dir)
+			rep.BenignRun++
+			var alarms []string
+			for _, o := range res.Obligations {
+				if (o.Verdict == core.Violation || o.Verdict == core.Undecided) && !baseSet[key(o)] {
+					alarms = append(alarms, o.Rule+" "+o.Key+" ("+o.Verdict+")")
+				}
+			}
+			if len(alarms) == 0 {
+				rep.BenignSilent++
+				rep.Names = append(rep.Names, name+": silent, as it must be ("+m.What+")")
+				return
+			}
+			if len(alarms) > 4 {
+				alarms = append(alarms[:4], fmt.Sprintf("… %d more", len(alarms)-4))
+			}
+			rep.BenignAlarms = append(rep.BenignAlarms, name+": "+strings.Join(alarms, "; "))
+			rep.Names = append(rep.Names, name+": FALSE ALARM "+strings.Join(alarms, "; "))
+		}()
+	}
+}
+
 func key(o core.Obligation) string { return o.Rule + "\x00" + o.Key + "\x00" + o.Verdict }
 
 // Run applies each mutant of the property to a scratch copy of /repo's working
@@ -73,10 +139,7 @@ func key(o core.Obligation) string { return o.Rule + "\x00" + o.Key + "\x00" + o
 func Run(prop *core.Property, seed int) *core.SelfTestReport {
 	muts := collect(prop.ID)
 	rep := &core.SelfTestReport{}
-	if len(muts) == 0 {
-		return rep
-	}
-	if seed != 0 {
+	if seed != 0 && len(muts) > 0 {
 		k := seed % len(muts)
 		if k < 0 {
 			k = -k
@@ -91,6 +154,7 @@ func Run(prop *core.Property, seed int) *core.SelfTestReport {
 	for _, o := range base.Obligations {
 		baseSet[key(o)] = true
 	}
+	runBenign(prop, seed, baseSet, rep)
 	for _, m := range muts {
 		dir, err := os.MkdirTemp("", "verif-mut-")
 		if err != nil {
